@@ -10,3 +10,4 @@ import Fir.Props.C11
 #print axioms Fir.C11.ideal_mono
 #print axioms Fir.C11.ideal_integer_upscale
 #print axioms Fir.C11.ideal_odd_downscale
+#print axioms Fir.C11.requested_rows_sorted_ieee
